@@ -36,12 +36,12 @@ Print Assumptions C19_keygen_tag_collision_fails.
 
 (* ---- deletion ---- *)
 Theorem C19_delete_needs_yes_or_force : forall st label answer st' r,
-  strip_newlines answer <> YES -> key_delete st label false answer = OK (st', r) -> st' = st.
+  strip_newlines answer <> YES -> key_delete st label false answer = (st', r) -> st' = st.
 Proof. exact delete_needs_yes_or_force. Qed.
 Print Assumptions C19_delete_needs_yes_or_force.
 
 Theorem C19_delete_removes_only_found : forall st label force answer st' r,
-  key_delete st label force answer = OK (st', r) ->
+  key_delete st label force answer = (st', r) ->
   incl (all_objs st') (all_objs st) /\
   forall x, In x (all_objs st) -> ~ In x (all_objs st') ->
     exists k, (get_p11_key st label true None = OK (Some k) /\ pk_pub k <> None /\ pos_of x = (pk_module k, pk_slot k, pk_handle k)) \/
@@ -50,7 +50,7 @@ Proof. exact delete_removes_only_found. Qed.
 Print Assumptions C19_delete_removes_only_found.
 
 Theorem C19_delete_removes_only_labelled : forall st label force answer st' r,
-  NoDup (map pos_of (all_objs st)) -> key_delete st label force answer = OK (st', r) ->
+  NoDup (map pos_of (all_objs st)) -> key_delete st label force answer = (st', r) ->
   incl (all_objs st') (all_objs st) /\
   forall x, In x (all_objs st) -> ~ In x (all_objs st') ->
     o_label (snd x) = label /\ (o_cls (snd x) = CKO_PUBLIC \/ o_cls (snd x) = CKO_PRIVATE).
@@ -58,11 +58,20 @@ Proof. exact delete_removes_only_labelled. Qed.
 Print Assumptions C19_delete_removes_only_labelled.
 
 Theorem C19_delete_confirmed_removes_public : forall st label force answer st' r k x,
-  key_delete st label force answer = OK (st', r) -> (force = true \/ strip_newlines answer = YES) ->
+  key_delete st label force answer = (st', r) -> (force = true \/ strip_newlines answer = YES) ->
   get_p11_key st label true None = OK (Some k) -> pk_pub k <> None ->
   pos_of x = (pk_module k, pk_slot k, pk_handle k) -> ~ In x (all_objs st').
 Proof. exact delete_confirmed_removes_public. Qed.
 Print Assumptions C19_delete_confirmed_removes_public.
+
+Theorem C19_delete_success_removes_both : forall st label force answer st',
+  key_delete st label force answer = (st', OK true) -> (force = true \/ strip_newlines answer = YES) ->
+  exists k st1 pk, get_p11_key st label true None = OK (Some k) /\
+    st1 = (match pk_pub k with Some _ => remove_handle st (pk_module k) (pk_slot k) (pk_handle k) | None => st end) /\
+    get_p11_key st1 label false None = OK (Some pk) /\
+    all_objs st' = filter (fun x => negb (at_pos (pk_module pk, pk_slot pk, pk_handle pk) x)) (all_objs st1).
+Proof. exact delete_success_removes_both. Qed.
+Print Assumptions C19_delete_success_removes_both.
 
 (* ---- histories ---- *)
 Theorem C19_harmless_history_leaves_token_unchanged : forall ops st,
